@@ -374,6 +374,17 @@ Theorem c11_os_release_fields : forall s r, read_release (Some s) = Ok r ->
 Proof. exact read_release_fields. Qed.
 Print Assumptions c11_os_release_fields.
 
+(* the literals of the parser as goextract read them on this run (found by shape: the function whose
+   result GenerateImageSBOM assigns to opts.OS.{ID,Name,Version}; the literal handed to Open; the map keys of
+   the returned literal; the defaults of the literal returned without the file).  Model/SbomRelease.v computes
+   with the keys and defaults: changing one in the source changes the model and breaks this statement *)
+Theorem c11_os_release_literals_read_from_source :
+  os_release_path = "/etc/os-release" /\
+  os_release_key_id = "ID" /\ os_release_key_name = "NAME" /\ os_release_key_version = "VERSION_ID" /\
+  os_release_default_id = "unknown" /\ os_release_default_name = "apko-generated image" /\ os_release_default_version = "unknown".
+Proof. exact release_literals_read. Qed.
+Print Assumptions c11_os_release_literals_read_from_source.
+
 (* it answers or fails with an error (no panic, no fuel), fails exactly when some line is neither empty,
    nor a comment, nor has an "=", and a missing file gives the three defaults *)
 Theorem c11_os_release_fails_iff_malformed : forall f,
